@@ -20,6 +20,15 @@ def main():
         for i in order:                          # instances are built in a per-node order
             res[i] = prio.eval_case(cases[i], job.get('salt', 0), job.get('noise_seed', 0))
         out = {'results': res, 'hashseed': os.environ.get('PYTHONHASHSEED')}
+    elif job['kind'] == 'c10':
+        # the pristine-process oracle of C10: nothing but this one instance has ever been built in this interpreter
+        from sim import workload as W, ops as O
+        out = {'results': []}
+        for cfg, op in job['items']:
+            q = W.build(cfg)
+            out['results'].append(O.run_op(q, W.ENTRIES[cfg.partition('/')[0]], op, {}, shared={}))
+            if not job.get('sequence'):
+                break                   # the pristine oracle: exactly one instance per interpreter
     elif job['kind'] == 'c11':
         from sim import persist
         out = persist.node(job)
